@@ -728,8 +728,8 @@ def _std_elems(rng, n, used, depth=0):
             continue
         used.add(tag)
         vr = rng.choice(SCALAR_VRS)
-        if vr == 'UN' and tag in STD_TAGS:
-            vr = 'OB'        # pydicom re-interprets UN on a public tag with its dictionary VR
+        if vr == 'UN' and tag not in UNKNOWN_TAGS[:4]:
+            vr = 'OB'        # pydicom re-interprets UN on a public (or repeating-group) tag with its dictionary VR
         out.append({'tag': list(tag), 'vr': vr, 'val': _elem_value(rng, vr)})
     return out
 
